@@ -9,10 +9,10 @@ pub fn prop() -> Prop {
     Prop {
         id: "C14",
         level: "model_checking",
-        rule: "unbounded input = every prefix of <=2 (thorough <=4) values over a 5-value alphabet (qualifying object, scalar, empty split, duplicate rows, non-qualifying object) followed by an endless counter stream of qualifying distinct objects (five kinds: every split item qualifies / every array ends in / starts with an item that --filter drops and --unique has seen; values separated by line breaks / by blanks only), served byte by byte with every byte pulled counted; T in 0..5, S in 0..3 (and (S,T) around 255/256/1000 for 6 option sets) x every subset of {--set, --split-by, --filter, --select, --unique, --only-objects-and-arrays}, each case with one of 8 options that change nothing on a clean stream (none, the four --on-error policies, cache size 0, --utf8-strings, --style=consise) in rotation; horizon 64 KiB; FIFO (file path) variant for a subset; non-trivial = T>=1 and the T-th row is not produced by the last value of the prefix; distinct by construction",
+        rule: "unbounded input = every prefix of <=2 (thorough <=4) values over a 7-value alphabet (qualifying object, scalar, empty split, duplicate rows, non-qualifying object, an object whose strings end in an escaped backslash or hold a bracket, a malformed region) followed by an endless counter stream of qualifying distinct objects (five kinds: every split item qualifies / every array ends in / starts with an item that --filter drops and --unique has seen; values separated by line breaks / by blanks only), served byte by byte with every byte pulled counted; T in 0..5, S in 0..3 (and (S,T) around 255/256/1000 for 6 option sets) x every subset of {--set, --split-by, --filter, --select, --unique, --only-objects-and-arrays}, each case with one of 8 options that change nothing on a clean stream (none, the four --on-error policies, cache size 0, --utf8-strings, --style=consise) in rotation; horizon 64 KiB; FIFO (file path) variant for a subset; non-trivial = T>=1 and the T-th row is not produced by the last value of the prefix; distinct by construction",
         explanation: "a step-wise reference pipeline says which input value produces row S+T and where that value ends; jawk must return Ok with exactly rows S..S+T, must not reach the horizon, and must not pull more than 16 bytes past that value (stdin) / one pipe + BufReader capacity (file)",
         assumptions: COMMON_ASSUMPTIONS.to_vec(),
-        guards: vec!["error-policy-panic-with-take", "stop-decision-from-the-last-item-of-an-array", "endless-part-without-line-breaks", "hundreds-of-rows-before-the-stop", "tail-arrays-end-in-a-dropped-item", "stopped-inside-endless-tail", "stopped-inside-prefix", "take-zero", "split-stops-mid-array", "unique-drops-before-limit", "fifo"],
+        guards: vec!["malformed-region-before-the-stop", "error-policy-panic-with-take", "stop-decision-from-the-last-item-of-an-array", "endless-part-without-line-breaks", "hundreds-of-rows-before-the-stop", "tail-arrays-end-in-a-dropped-item", "stopped-inside-endless-tail", "stopped-inside-prefix", "take-zero", "split-stops-mid-array", "unique-drops-before-limit", "fifo"],
         budget_s: (100, 1200),
         single_worker: false,
         run,
@@ -30,6 +30,8 @@ fn alphabet() -> Vec<&'static str> {
         "{\"i\":-6,\"l\":[]}",       // qualifying, splits into nothing
         "{\"i\":-5,\"l\":[70,71]}",  // duplicate of the first
         "{\"i\":0,\"l\":[8,8,9]}",   // not qualifying for the filter; duplicate rows when split
+        "{\"i\":-7,\"d\":\"c:\\\\\",\"l\":[\"]\\\\\",72]}", // strings that end in an escaped backslash / hold a bracket
+        "}",                          // a malformed region (skipped; reported under --on-error=stdout/stderr)
     ]
 }
 
@@ -194,12 +196,17 @@ fn run(ctx: &mut Ctx) {
     for (pi, pidx) in prefixes.iter().enumerate() {
         // prefix text: values separated by single spaces, trailing newline
         let mut ptxt = String::new();
+        let mut stream: Vec<(V, usize)> = Vec::new();
+        let mut noisy = false;
         for i in pidx {
             ptxt.push_str(alpha[*i]);
+            match json::parse_one(alpha[*i].as_bytes()) {
+                Ok(v) => stream.push((v, ptxt.len())),
+                Err(_) => noisy = true,
+            }
             ptxt.push(' ');
         }
         let pbytes = ptxt.into_bytes();
-        let mut stream: Vec<(V, usize)> = json::parse_stream(&pbytes).unwrap().into_iter().map(|s| (s.v, s.end)).collect();
         let plen = stream.len();
         for (v, e) in tail_vals.iter() {
             if pbytes.len() + e > HORIZON {
@@ -229,7 +236,14 @@ fn run(ctx: &mut Ctx) {
                     let exp = expectation(&o, s, t, &stream, plen);
                     // options that change nothing on a clean stream, one per case in rotation (over the prefixes every
                     // (options, S, T) meets every one of them)
-                    let neutral = NEUTRAL[(pi + mask as usize + s + 2 * t) % NEUTRAL.len()];
+                    let mut neutral = NEUTRAL[(pi + mask as usize + s + 2 * t) % NEUTRAL.len()];
+                    if noisy {
+                        ctx.guard("malformed-region-before-the-stop");
+                        // a malformed region makes the run fail under `panic`: that policy is then replaced by the default
+                        if neutral == "--on-error=panic" {
+                            neutral = "";
+                        }
+                    }
                     let mut args = o.args(s, t);
                     if !neutral.is_empty() {
                         args.insert((pi + s) % (args.len() + 1), neutral.to_string());
@@ -281,7 +295,13 @@ fn run(ctx: &mut Ctx) {
                     } else if !got.res.is_ok() {
                         bad = Some(("result", "Ok".into()));
                     } else {
-                        match json::parse_rows(&got.stdout, b"\n") {
+                        // diagnostics of a malformed region go to the chosen stream; on stdout they are not rows
+                        let rows_only: Vec<u8> = if noisy && neutral == "--on-error=stdout" {
+                            got.stdout.split(|b| *b == b'\n').filter(|l| !l.is_empty() && !l.starts_with(b"error:")).flat_map(|l| l.iter().copied().chain(std::iter::once(b'\n'))).collect()
+                        } else {
+                            got.stdout.clone()
+                        };
+                        match json::parse_rows(&rows_only, b"\n") {
                             Ok(rows) if rows == exp.rows => {
                                 if got.bytes_pulled > stop + 16 {
                                     bad = Some(("reads-too-far", format!("<= {} bytes pulled (value ends at {stop})", stop + 16)));
